@@ -3,7 +3,6 @@ import pathlib
 import re
 import shutil
 import stat
-import sys
 from typing import List
 
 from conductor.context import Context
@@ -19,22 +18,24 @@ _REGULAR_TASK_REGEX = re.compile(r"^(?P<name>[a-zA-Z0-9_-]+)\.task\Z")
 
 def _remove_tree(path: pathlib.Path) -> None:
     """
-    Removes a directory tree, also when it contains read-only directories
-    (removing an entry needs write permission on its parent). What still cannot
-    be removed is reported instead of being silently left behind.
+    Removes a directory tree, also when it contains directories that their owner
+    has protected (removing an entry needs write permission on its parent, and
+    listing a directory needs read and search permission on it). What still
+    cannot be removed is reported instead of being silently left behind.
     """
-
-    def make_writable_and_retry(function, failed_path, _exc):
-        parent = os.path.dirname(failed_path)
-        for to_fix in (parent, failed_path):
-            if not os.path.islink(to_fix):
-                os.chmod(to_fix, stat.S_IRWXU)
-        function(failed_path)
-
-    if sys.version_info >= (3, 12):
-        shutil.rmtree(path, onexc=make_writable_and_retry)
-    else:
-        shutil.rmtree(path, onerror=make_writable_and_retry)
+    # Give the owner access to every directory first. Symbolic links are never
+    # followed.
+    pending = [str(path)]
+    while len(pending) > 0:
+        directory = pending.pop()
+        mode = stat.S_IMODE(os.lstat(directory).st_mode)
+        if mode & stat.S_IRWXU != stat.S_IRWXU:
+            os.chmod(directory, mode | stat.S_IRWXU)
+        with os.scandir(directory) as entries:
+            pending.extend(
+                entry.path for entry in entries if entry.is_dir(follow_symlinks=False)
+            )
+    shutil.rmtree(path)
 
 
 def register_command(subparsers):
